@@ -93,7 +93,7 @@ def gen(seed, tier):
         cases.append(H("C01-b%d" % n, o, [blob(0, b"\n".join(x if isinstance(x, bytes) else x.encode() for x in body))]))
         n += 1
     # (c) the CLI itself (exit status, stderr) on hostile files; both profiles are run by vcheck
-    for o in ({"i": "aAews", "u": -1}, {"i": "Q", "u": 3, "U": 1, "R": 1, "c": 1}):
+    for o in ({"i": "aAews", "u": -1}, {"i": "Q", "u": 3, "U": 1, "R": 1, "c": 1}, {"i": "aAews", "u": -1, "l": 2, "R": 1}, {"i": "e", "u": -1, "l": 1, "U": 1}):
         part = r.sample(lines, 60) + [sentinel()]
         cases.append(("C01-c%d" % n, "C", opts_str(o), seg(0, part)))
         n += 1
@@ -140,6 +140,19 @@ def gen(seed, tier):
             segs.append(seg(t, [g.any_frame(pool[0])] if r.random() < 0.5 else []))
         cases.append(D("C01-g%d" % n, {"i": "aAews", "d": 9223372036854775807, "R": 1}, segs))
         n += 1
+    # (n) observers that make the distance degenerate -- not a number, infinite, exponent notation, the exact antipode of a
+    #     decoded position -- together with the distance sort keys: several aircraft with positions, a refresh after every
+    #     frame.  The model's option parser knows plain decimals only, so these cases are judged by the oracle alone.
+    import props.common as pc
+    for k, obs_s in enumerate(["nan,nan", "NaN,0", "inf,-inf", "1e999,0", "1e2,1e2", "-30.75,33.75", "30.75,-146.25", "90,0", "-90,180", "0,0"]):
+        pool = r.sample(ICAOS, 3)
+        lines = []
+        for icao, (la, lo) in zip(pool, [(30.75, -146.25), (-30.75, 33.75), (r.uniform(-80, 80), r.uniform(-170, 170))]):
+            lines += pc.pair_frames(g, icao, la, lo)
+        lines.append(sentinel())
+        for ob in ("d", "D", "sd"):
+            o = {"i": "e", "u": -1, "o": ob, "O": obs_s.encode().hex().upper()}
+            cases.append(("C01-n%d%s" % (k, ob), "C", opts_str(o), seg(0, lines)))
     # (d) random histories with time steps (update paths, sweeps)
     for i in range(60 if tier == "quick" else 600):
         cases.append(g.random_history("C01-r%d" % i))
@@ -186,3 +199,8 @@ CLAIM = {
     "note": "Partial in one respect: the theorem covers the panic sources the model represents; arithmetic is exact in the model, so absence of integer overflow in the Rust code is shown by the dev-profile runs, not by the theorem. std/chrono/clap internals, allocation and -u/-d values beyond chrono's range are outside the model.",
     "technique": "Coq totality proof over the res-monad model (all inputs, by structural lemmas per decoder) + dev/release differential runs incl. CLI and recordings",
 }
+
+
+def skip_case(parts, impl, model):
+    """C01-n: degenerate observers -- outside the model's option parser (plain decimals); oracle only"""
+    return parts[0].startswith("C01-n")
